@@ -809,6 +809,47 @@ theorem eq_foreign_operand_leaves_code_comparison :
   · decide
   · decide
 
+/-! ## `copy.copy`, and a key mutated after its insertion — where the value behaviour ends inside pydicom / Python -/
+
+/-- **`copy.copy` of a concept is NOT a copy of its content** (pydicom's shallow copy: the new object shares the element table
+with the original; hand model `OStore`, tie C: stream `shallow-copy`): two objects on one element table read the same content
+after ANY history of copies, assignments and deletions through any object — whereas `deepcopy` (what `from_dataset(copy=True)`
+uses, `copy_or_alias_copy`) gives a table of its own. -/
+theorem shallow_copy_shares_content (s : OStore) (a b : Nat) (ha : a < s.objs.length) (hb : b < s.objs.length)
+    (hab : s.objs[a]? = s.objs[b]?) (ops : List SOp) : (srun s ops).content a = (srun s ops).content b := by
+  simp only [OStore.content, srun_objs ops s a ha, srun_objs ops s b hb, hab]
+
+/-- the counterexample spelled out: after `c2 = copy.copy(c)`, `c2.CodeMeaning = 'x'` changes what `c` reads; after
+`c3 = copy.deepcopy(c)` the same assignment leaves `c` alone -/
+theorem counterexample_copy_copy_is_an_alias :
+    let c : DS := [("CodingSchemeDesignator", "SCT"), ("CodeMeaning", "Brain"), ("CodeValue", "12738006")]
+    let s0 : OStore := { tables := [c], objs := [0] }
+    (srun s0 [.shallow 0, .set 1 "CodeMeaning" "x"]).content 0 = some (DS.set c "CodeMeaning" "x") ∧
+    (srun s0 [.deep 0, .set 1 "CodeMeaning" "x"]).content 0 = some c ∧
+    (srun s0 [.shallow 0, .del 1 "CodeMeaning"]).content 0 = some (DS.del c "CodeMeaning") := by
+  decide
+
+/-- **a key mutated after its insertion is lost** (outside `PyDict.WF`: the entry keeps the hash it was stored under; hand model
+`mutateKey`, tie C: stream `dict-mutated-key`): after `d[c] = 1; c.CodeValue = 'BB'` neither a concept equal to the mutated `c`
+(`kB`, any object other than `c` itself) nor a concept equal to what was inserted is found, although the entry is still there — for
+every string hash that separates the two hashed strings.  (The very object `c` may still be found: CPython compares identity
+before the stored hash, so that depends on the probe sequence — not modelled, recorded in the evidence.)  Coded concepts are
+mutable datasets; they behave as dictionary keys only while they are not written to. -/
+theorem counterexample_mutated_key_is_lost (h : String → Int) (hh : h "SCTA" ≠ h "SCTBB") :
+    let kA : Obj := .concept [("CodingSchemeDesignator", "SCT"), ("CodeMeaning", "m"), ("CodeValue", "A")]
+    let kB : Obj := .concept [("CodeValue", "BB"), ("CodingSchemeDesignator", "SCT"), ("CodeMeaning", "m")]
+    ∃ d : PyDict Nat, pySet h exRetired [] kA 1 = .ok d ∧ d.length = 1 ∧ (mutateKey d 0 kB).length = 1 ∧
+      pyGet h exRetired (mutateKey d 0 kB) kB = .ok none ∧ pyGet h exRetired (mutateKey d 0 kB) kA = .ok none := by
+  intro kA kB
+  have ha : kA.wf := by decide
+  have hb : kB.wf := by decide
+  have h1 : hashOf h kA = .ok (h "SCTA") := by rw [hashOf_wf h kA ha]; rfl
+  have h2 : hashOf h kB = .ok (h "SCTBB") := by rw [hashOf_wf h kB hb]; rfl
+  have e1 : objEq exRetired kB kA = .ok false := by rw [objEq_key _ _ _ hb ha]; decide
+  refine ⟨[⟨h "SCTA", kA, 1⟩], by simp [pySet, h1, pySetH], rfl, rfl, ?_, ?_⟩
+  · simp [pyGet, h2, mutateKey, pyGetH, hh]
+  · simp [pyGet, h1, mutateKey, pyGetH, e1]
+
 /-! ## non-vacuity: the hypotheses are satisfiable by concrete, non-trivial inputs -/
 
 
@@ -866,5 +907,10 @@ example : ∀ v, specScheme (.code ⟨some "T-D0050", some "SRT", some "Tissue",
   simp only [specValue, Option.some.injEq] at hv
   subst hv
   decide
+
+/-- hypotheses of `shallow_copy_shares_content` / `counterexample_mutated_key_is_lost` are satisfiable -/
+example : ({ tables := [[("CodeValue", "1")]], objs := [0, 0] } : OStore).objs[0]? =
+    ({ tables := [[("CodeValue", "1")]], objs := [0, 0] } : OStore).objs[1]? ∧
+    (fun s : String => (s.length : Int)) "SCTA" ≠ (fun s : String => (s.length : Int)) "SCTBB" := by decide
 
 end HdVerif.C17
